@@ -9,7 +9,7 @@ CONSTANTS
   MaxRandPk = 0
   Rates <- RatesAll
   Starts <- StartsWrap
-  Deltas <- DeltasPts
+  Deltas <- DeltasPtsT
   MaxRandDelta = 0
   Directs = {FALSE, TRUE}
   Ctors <- CtorsAll
